@@ -66,6 +66,8 @@ def model_line(op, out, st):
     if f[0] in ("deliver", "replay"):
         i = rt.index("pkt")
         return f"deliver {rt[i + 1]} {rt[i + 2]} {rt[i + 3]} {rfield(right, 'vp')} {rfield(right, 'gs')}"
+    if f[0] == "own" and "pkt" not in rt:
+        return f"own {f[1]} none"
     if f[0] == "own":
         i = rt.index("pkt")
         return f"own {f[1]} {rt[i + 1]} {rt[i + 2]} {rt[i + 3]} {rfield(right, 'vp')} {rfield(right, 'gs')}"
@@ -245,6 +247,13 @@ def _oracle(s):
             j = rt.index("b")
             if (rfield(right, "vb") == "1") != (rt[j + 2] == rfield(right, "gs")):
                 yield ("harness labelling inconsistent: VerifyBeacon disagrees with equality to the group signature", i)
+        if f[0] == "own" and "pkt" not in right.split():
+            if rfield(right, "emitted") == "1":
+                yield ("the partial the node broadcast although the stored head is ahead of the tick's round", i)
+            for (r, sig, prev) in puts:
+                tr.stored[r] = (sig, prev)
+                tr.head = max(tr.head, r)
+            continue
         if f[0] == "own" and rfield(right, "bcsame") == "0":
             yield ("the partial the node broadcast is not its share's signature on the digest of (head+1, head signature)", i)
         # --- C03 bookkeeping and check
@@ -572,6 +581,10 @@ def gen_c01(rng, scheme, n, t, backend, blocks, polyseed):
             for _ in range(rng.range(1, 4)):
                 g.ensure_clock(g.H + 1)
                 g.ops.append(g.forged())
+            if rng.chance(1, 3):
+                # a late tick: the head may be ahead of (or at) the tick's round
+                g.ops.append(f"own {max(0, g.H - rng.below(3))}")
+                g.note("own-late-tick")
     g.ops += ["scan", "last", "proxyget 0"]
     return Seq(g.ops, {"scheme": scheme, "n": n, "t": t, "backend": backend, "kinds": g.kinds})
 
